@@ -124,6 +124,18 @@ theorem step_shape : Shape s o cfg code st (step s o cfg env code st) := by
     by_cases h : op = 0x39
     · rw [if_pos h]; shape_branch
     rw [if_neg h]; clear h
+    by_cases h : op = 0x3d
+    · rw [if_pos h]; shape_leaf
+    rw [if_neg h]; clear h
+    by_cases h : op = 0x3e
+    · rw [if_pos h]; shape_branch
+    rw [if_neg h]; clear h
+    by_cases h : op = 0x54 ∨ op = 0x5c
+    · rw [if_pos h]; shape_branch
+    rw [if_neg h]; clear h
+    by_cases h : op = 0x55 ∨ op = 0x5d
+    · rw [if_pos h]; shape_branch
+    rw [if_neg h]; clear h
     shape_leaf
 
 /-- paths only grow -/
@@ -163,6 +175,19 @@ theorem step_bounded_cases :
   · left; rw [e']; rfl
   · left; rw [e']
   · right; exact ⟨st0, target, c, nextPc, hp, hv, e'⟩
+
+theorem stepL_next_path {st' : SState} (h : st' ∈ (stepL s o cfg env code st).next) :
+    ∃ ext, st'.path = st.path ++ ext := by
+  unfold stepL at h
+  split at h
+  · simp [haltOut] at h
+  · exact step_next_path h
+
+theorem stepL_end_path {e : EndState} (h : e ∈ (stepL s o cfg env code st).ends) : e.st.path = st.path := by
+  unfold stepL at h
+  split at h
+  · simp only [haltOut, List.mem_singleton] at h; subst h; rfl
+  · exact step_end_path h
 
 /-- a JUMPI whose condition is a literal (a concrete word, or a literal Bool) is decided without `jumpi` -/
 theorem step_jumpi_literal {tv cv : HV} {rest : List HV} {sz target : Nat} (hop : opAt code st.pc = 0x57)
